@@ -414,6 +414,34 @@ def _regrid_bspline(ctx: Ctx) -> None:
                 return True, ""
             _guard(ctx, "T6x.regrid", f"{cls}:D={D}", fG, f"class={cls} D={D} subdivision", th)
 
+            def thbad(mod=mod, cls=cls, kw=kw, D=D):
+                # grids that do NOT cover the current domain (same extent, shifted centre / other orientation; same centre, other extent):
+                # the coefficients cannot be carried over by subdivision, so grid_() must refuse them — accepting one silently reads the
+                # unchanged coefficients over another world domain (the deformation moves)
+                env = TEnv(ctx, D)
+                it = env.it
+                n = list(env.size)
+                cases = {
+                    "same size, centre shifted by one sample": dict(size=tuple(n), center=(1,) + (0,) * (D - 1)),
+                    "refined size, centre shifted by half a sample": dict(size=tuple(2 * k - 1 for k in n), spacing=Fraction(1, 2),
+                                                                         center=(Fraction(1, 2),) + (0,) * (D - 1)),
+                    "same size and extent, axes flipped": dict(size=tuple(n), direction=symt.diag(STensor.from_flat([-1] + [1] * (D - 1), [D]))),
+                    "same size, larger spacing": dict(size=tuple(n), spacing=2),
+                }
+                for what, gkw in cases.items():
+                    t = env.make(mod, cls, kw, "parameter")
+                    g = it.new(env.Grid, **gkw)
+                    try:
+                        it.method(t, "grid_", g)
+                    except InterpError as e:
+                        if e.exc_type == "ValueError":
+                            continue
+                        raise
+                    return False, (f"grid_() accepted a grid that does not cover the transform's domain ({what}): the coefficients are now read "
+                                   f"over another world domain")
+                return True, ""
+            _guard(ctx, "T6x.regrid", f"{cls}:D={D}:foreign", fG, f"class={cls} D={D} grid of another domain", thbad)
+
 
 def _regrid_dense(ctx: Ctx) -> None:
     prog = ctx.prog
